@@ -461,6 +461,8 @@
 (define-fun map_has ((val cty.Value) (key cty.Value)) Bool (select (MapC<String~Any>.dom (pl_mapc val)) (str_of key)))
 (define-fun bool_payload ((v cty.Value) (b Bool)) Bool (and (is_bool_ty (vty v)) (= (inner_v v) (box<bool> b))))
 (define-fun bool_of ((v cty.Value)) Bool (unbox<bool> (inner_v v)))
+; "Equals answers a known True" as a view of the two operands (Equals is assumed to be a function of them)
+(declare-fun eq_true (cty.Value cty.Value) Bool)
 (define-fun is_unk_payload ((v cty.Value)) Bool ((_ is box<*cty.unknownType>) (cty.Value.v v)))
 
 ; ---- paths (C19) -------------------------------------------------------------------------------
